@@ -8,7 +8,7 @@
 From Coq Require Import ZArith List String.
 Import ListNotations.
 From FGV Require Import Base.Util Base.Bond Base.NX Base.NXMulti Model.Proxy Model.Its Model.ProxyGen
-  Spec.ProxySpec Spec.ProxyGenSpec Spec.ProxyGenCheck Spec.ItsSpec Spec.ReactionSpec Gen.ProxyDA
+  Spec.ProxySpec Spec.ProxyGenSpec Spec.ProxyGenCheck Spec.ProxyParserCheck Spec.ItsSpec Spec.ReactionSpec Gen.ProxyDA
   Proofs.ReactionProofs Proofs.ProxyDAAll Proofs.ProxyGenTop Proofs.ReactionCheckProofs.
 Open Scope string_scope.
 Open Scope Z_scope.
